@@ -76,6 +76,7 @@ type sched struct {
 	atServer map[int]bool // a stalled request for the key is waiting at the server
 	broken   bool
 	quiet    bool // replaying a corpus script: same protocol, counted separately
+	cur      string
 }
 
 func newSched(r *hx.Run, layers []*layer) (*sched, error) {
@@ -116,7 +117,15 @@ func (s *sched) hook(site, key string) {
 	<-p.rel
 }
 
-func (s *sched) witness() string { return "schedule=" + strings.Join(s.ops, ";") }
+// witness is the schedule so far, including the operation in progress, in the
+// grammar of the corpus scripts.
+func (s *sched) witness() string {
+	ops := s.ops
+	if s.cur != "" {
+		ops = append(append([]string(nil), ops...), s.cur)
+	}
+	return "schedule=" + strings.Join(ops, ";")
+}
 
 func (s *sched) fail(class, what string) {
 	s.r.Fail(class, what+" "+s.witness())
@@ -210,6 +219,7 @@ func (s *sched) keyState(k int) string {
 }
 
 func (s *sched) emit(line string, k int, outcome string) {
+	s.cur = ""
 	s.ops = append(s.ops, line)
 	s.r.Op(line, outcome+" | "+s.keyState(k), true)
 	if !s.quiet {
@@ -247,6 +257,9 @@ func (s *sched) spawn(k int, badURI bool) *task {
 		s.broken = true
 	}
 	s.emit(fmt.Sprintf("spawn %d", k), k, fmt.Sprintf("task %d", t.id))
+	if badURI {
+		s.ops[len(s.ops)-1] += " baduri" // the witness is a replayable script
+	}
 	return t
 }
 
@@ -279,6 +292,7 @@ func (s *sched) waitGone(gid int64) {
 }
 
 func (s *sched) enter(t *task) {
+	s.cur = fmt.Sprintf("enter %d", t.id)
 	k := t.key
 	had := s.flights[k] != nil
 	s.releaseTask(t)
@@ -306,6 +320,7 @@ func (s *sched) flightStep(k int) string {
 }
 
 func (s *sched) fload(k int) {
+	s.cur = fmt.Sprintf("fload %d", k)
 	f := s.flights[k]
 	valid := f.leader >= 0 && !s.tasks[f.leader].badURI
 	site := s.flightStep(k)
@@ -321,6 +336,7 @@ func (s *sched) fload(k int) {
 }
 
 func (s *sched) fnet(k int, srvOK bool, mode int32) {
+	s.cur = fmt.Sprintf("fnet %d %s", k, b01(srvOK))
 	before := s.srv.hits[k].Load()
 	s.srv.mode[k].Store(mode)
 	if f := s.flights[k]; !s.quiet && f != nil && f.leader >= 0 && s.tasks[f.leader].st == "failed" {
@@ -350,6 +366,10 @@ func (s *sched) heldCheck(k int, before int64) {
 // freq: the request leaves and reaches a server that stalls (before the
 // headers or in the middle of the body) until fbody.
 func (s *sched) freq(k int, where int32) {
+	s.cur = fmt.Sprintf("freq %d", k)
+	if where == stallMidBody {
+		s.cur += " midbody"
+	}
 	f := s.flights[k]
 	before := s.srv.hits[k].Load()
 	s.srv.armStall(k, where)
@@ -368,10 +388,14 @@ func (s *sched) freq(k int, where int32) {
 		s.r.Count(fmt.Sprintf("branch:stall-point=%d", where))
 	}
 	s.emit(fmt.Sprintf("freq %d", k), k, out)
+	if where == stallMidBody {
+		s.ops[len(s.ops)-1] += " midbody"
+	}
 }
 
 // fbody: the stalled transfer ends, with the right bytes or in failure.
 func (s *sched) fbody(k int, srvOK bool, mode int32) {
+	s.cur = fmt.Sprintf("fbody %d %s", k, b01(srvOK))
 	f := s.flights[k]
 	s.srv.mode[k].Store(mode)
 	s.srv.openGate(k)
@@ -384,6 +408,7 @@ func (s *sched) fbody(k int, srvOK bool, mode int32) {
 }
 
 func (s *sched) fstore(k int) {
+	s.cur = fmt.Sprintf("fstore %d", k)
 	f := s.flights[k]
 	s.flightStep(k)
 	s.mu.Lock()
@@ -398,6 +423,7 @@ func (s *sched) fstore(k int) {
 }
 
 func (s *sched) fend(k int) {
+	s.cur = fmt.Sprintf("fend %d", k)
 	f := s.flights[k]
 	for {
 		last := f.at.site == "c10.flight.end"
@@ -465,6 +491,7 @@ func (s *sched) fend(k int) {
 }
 
 func (s *sched) cancelTask(t *task) {
+	s.cur = fmt.Sprintf("cancel %d", t.id)
 	out := "noeffect"
 	t.cancel()
 	if t.st == "waiting" {
@@ -515,6 +542,7 @@ func bucket(n int) string {
 }
 
 func (s *sched) ref(t *task) {
+	s.cur = fmt.Sprintf("ref %d", t.id)
 	out := "ref"
 	if site := s.stepTask(t, "reffed"); site != "reffed" {
 		out = "unexpected-" + site
@@ -524,6 +552,7 @@ func (s *sched) ref(t *task) {
 }
 
 func (s *sched) val(t *task) {
+	s.cur = fmt.Sprintf("val %d", t.id)
 	site := s.stepTask(t, "val")
 	out := "unexpected-" + site
 	switch site {
@@ -541,6 +570,7 @@ func (s *sched) val(t *task) {
 }
 
 func (s *sched) retry(t *task) {
+	s.cur = fmt.Sprintf("retry %d", t.id)
 	out := "retry"
 	if site := s.stepTask(t, "retry"); site != "enter" {
 		out = "unexpected-" + site
@@ -552,6 +582,7 @@ func (s *sched) retry(t *task) {
 }
 
 func (s *sched) initTask(t *task) {
+	s.cur = fmt.Sprintf("init %d", t.id)
 	valid := s.srv.layers[t.key].validTar
 	site := s.stepTask(t, "init")
 	out := "unexpected-" + site
@@ -575,6 +606,7 @@ func (s *sched) initTask(t *task) {
 }
 
 func (s *sched) closeTask(t *task) {
+	s.cur = fmt.Sprintf("close %d", t.id)
 	var err error
 	out := hx.Guard(func() string { err = t.cl.Close(); return "closed" })
 	if out == "closed" && err != nil {
